@@ -20,6 +20,7 @@ type c14Tier struct {
 	touched int  // operations that reached this tier
 	failSet bool // the next Set on this tier fails (one transient fault)
 	yield   bool
+	yieldAfter bool // Get: also a scheduling point between reading the value and returning it (the reply is in flight)
 	// ghost: a read-modify-write on watchKey overlapped another one
 	watchKey    string
 	openReads   int
@@ -57,7 +58,11 @@ func (t *c14Tier) Get(key string) (any, error) {
 	if key == t.watchKey && t.watchKey != "" {
 		t.openReads++
 	}
-	if it, ok := t.m[key]; ok {
+	it, ok := t.m[key]
+	if t.yieldAfter {
+		verif_Yield()
+	}
+	if ok {
 		return it.v, nil
 	}
 	return nil, types.ErrKeyNotFound
@@ -368,4 +373,59 @@ func Harness_C14_lists() {
 		verif_Assert("C14.list.x_kept", has("x"))
 	}
 	verif_Cover("C14.list.done")
+}
+
+// A read that starts after a Delete (or a newer Set) has returned never gets the older value
+// from a read that was still in flight when the change happened: reader 1 is suspended at an
+// arbitrary tier operation of its Get, the change completes, then reader 2 runs - without any
+// asynchronous write-back in between (those are the subject of stale_read and of a known finding).
+func Harness_C14_read_overlapping_change() {
+	ctx := context.Background()
+	w := newC14World(ctx, true)
+	nd := w.nodes[0]
+	key, cat := c14Key()
+	verif_Assume(cat == DataCategoryPersistent || cat == DataCategorySharedPersistent)
+	w.shared.yield, w.persist.yield, nd.local.yield = false, false, false
+	verif_Assert("C14.ovl.setup.set", nd.h.Set(key, int64(1), 0) == nil)
+	for verif_PendingCount() > 0 {
+		verif_MaybeRunPending()
+		if verif_PendingCount() > 0 {
+			verif_Assume(false) // setup: all write-backs of the setup have run
+		}
+	}
+	// the cache copies are gone (expired / evicted / another node's cold cache)
+	delete(nd.local.m, key)
+	delete(w.shared.m, key)
+	w.shared.yield, w.persist.yield, nd.local.yield = true, true, true
+	w.persist.yieldAfter = true
+	var v1 any
+	var e1 error
+	verif_Spawn(func() { v1, e1 = nd.h.Get(key) })
+	verif_Yield() // reader 1 runs up to any of its tier operations - before it or with the reply in flight - or not at all yet
+	w.shared.yield, w.persist.yield, nd.local.yield = false, false, false
+	w.persist.yieldAfter = false
+	want := int64(0)
+	if verif_Bool() {
+		verif_Assert("C14.ovl.delete", nd.h.Delete(key) == nil)
+	} else {
+		verif_Assert("C14.ovl.set2", nd.h.Set(key, int64(2), 0) == nil)
+		want = 2
+	}
+	// has an asynchronous write-back of reader 1 already put the old value back? (known finding)
+	resurrected := false
+	for _, tier := range []*c14Tier{nd.local, w.shared} {
+		if it, ok := tier.m[key]; ok && it.v != any(want) {
+			resurrected = true
+		}
+	}
+	verif_Known("C14-writeback-resurrects", resurrected)
+	v2, e2 := nd.h.Get(key)
+	if want == 0 {
+		verif_Assert("C14.ovl.notfound_after_delete", e2 != nil)
+	} else {
+		verif_Assert("C14.ovl.latest_value", e2 == nil && v2 == any(want))
+	}
+	verif_Quiesce()
+	_, _ = v1, e1
+	verif_Cover("C14.ovl.done")
 }
